@@ -98,6 +98,14 @@ def run_shard(spec, res):
                     # stopping early must not let the read-ahead grow either
                     sc2 = dict(sc, stop=['close', 2])
                     on_run(sc2, conc.run(sc2, D.starve_consumer_chooser()))
+                    if key and entry in ('pf1', 'pft'):
+                        # keyed iteration over duplicated keys: refused or bounded
+                        sc5 = dict(sc, dupkeys=True, may_refuse=True)
+                        r5 = conc.run(sc5, D.starve_consumer_chooser())
+                        res.count('keyed_over_duplicated_keys_cases')
+                        if r5.get('delivered'):
+                            res.count('keyed_over_duplicated_keys_delivered')
+                        on_run(sc5, r5)
                     if not key and entry in ('pf1', 'pft', 'parmap', 'chain'):
                         sc4 = dict(sc, neighbour=True)
                         on_run(sc4, conc.run(sc4, D.starve_consumer_chooser()))
